@@ -119,7 +119,7 @@ def dumpBase {L : Type} [Inhabited L] (und : Bool) (g : G L) : List String :=
       showRes showBool (if und then g.uHasEdge i j else g.dHasEdge i j))))
   let es := if und then g.uEdges else g.dEdges
   let be := showBool (g.itBegin == g.itEnd)
-  nbs ++ has ++ [s!"E pre: {showEdges es} | post: {showEdges es} | be={be}", s!"V {joinNat g.vertices}"]
+  nbs ++ has ++ [s!"E pre: {showEdges es} | post: {showEdges es} | be={be}", s!"V pre: {joinNat g.vertices} | post: {joinNat g.vertices}"]
 
 def dumpLabels (und : Bool) (g : G Int) : List String :=
   if !g.labelled then [] else
